@@ -396,7 +396,9 @@ PROPS = {
             # the refinement: representation relation reference cells <-> stack slots / upvalue objects, one-step
             # preservation (C06SimDefs.v, C06SimVm*.v)
             "C06_rep_read_upvalue", "C06_rep_write_upvalue", "C06_rep_read_local", "C06_rep_write_local",
-            "C06_rep_close_upvalue", "C06_rep_register_upvalue", "C06_rep_return"]},
+            "C06_rep_close_upvalue", "C06_rep_register_upvalue", "C06_rep_return",
+            # refinement through the compiler, fragment FC: the reference half (C06SimFc*.v)
+            "C06_fc_reference_meaning", "C06_fc_well_scoped"]},
         n_quick=200, n_thorough=3000,
         gen_timeout=3000,
         release=False,
